@@ -10,7 +10,15 @@ Histories also contain (Model/CursorFault.v): FAULTS - the source raises once du
 seek for seek) before consuming or moving anything, the exception is caught and the history goes on: a failed call is a no-op on the
 cursor - and CALLER operations on the objects the reader handed out (the LasData of read(): extra dimensions added / removed through the
 LasData, its header, its point format; points replaced; header fields, VLRs, version / format edited; written out; a chunk wrapped
-into a LasData): the reader must be unaffected."""
+into a LasData): the reader must be unaffected.
+Round 6: (a) the source is chosen by CAPABILITY - the core read / seek / tell (all laspy needs to open a file) plus every subset of the
+optional members readinto / seekable() / readable() (and close / flush / fileno / closed): a source that HAS seek() and merely lacks
+seekable() (mmap.mmap up to Python 3.12, a minimal range reader) is a random-access source; library objects: BytesIO, bytes, a path,
+buffered / unbuffered file objects, mmap.mmap; closefd True / False; (b) the complete loop `for chunk in chunk_iterator(k)` is an
+operation of the histories (Model/CursorIter.v: the chunks tile the rest of the file, the loop is next() until StopIteration, the reader
+outlives it) and loops / read() that reached the end are followed by seeks and second passes; (c) one file holds more than 64 MiB of point
+data and is read in single calls, through the readinto and the read(n) path of the point source. The open finding
+`empty-laz-evlrs-nonseekable` (known_findings.json) shows in this property's domain for sources without seekable(): kinds with that prefix."""
 import copy
 import io
 import logging
@@ -21,13 +29,22 @@ import tempfile
 from harness import common, lasio
 
 DRIVER = "c05"
-ASSUMPTIONS = ["uncompressed files; the point source holds a complete file (BytesIO, a stream without readinto, a file on disk)"]
+ASSUMPTIONS = ["uncompressed files; the point source holds a complete file and offers at least read / seek / tell (what laspy needs to open "
+               "it): BytesIO, bytes, a path, buffered / unbuffered file objects, mmap.mmap, and classes with every subset of the optional "
+               "members readinto / seekable / readable (+ close, flush, fileno, closed)"]
 
 SOURCES = ["bytesio", "bytesio", "ctor", "noreadinto", "file"]
 
 
+def loop_chunk(rng, n, choices):
+    """chunk size of a complete loop: at most ~300 chunks per loop (the loop is run chunk by chunk through the model)"""
+    ok = [k for k in choices if n // k <= 300]
+    return rng.choice(ok) if ok else max(1, n // rng.choice([3, 50, 200]))
+
+
 def gen_history(rng, n, faults=True, caller=True):
     """ops: ("R", n) read_points | ("S", pos, whence) seek | ("N", k) next(chunk_iterator(k)) | ("A",) read()
+            | ("I", k) `for chunk in chunk_iterator(k)` on a fresh iterator, to the end (k >= 1)
             | ("F", kind, op) op during which the source raises once: kind "r" = on its next read / readinto of point data,
               "k" = on its next seek into the point data (a kind the op never uses cannot show: the op is then the plain one)
             | ("M", what, which) caller operation number `what` on the `which`-th object the reader handed out"""
@@ -41,16 +58,23 @@ def gen_history(rng, n, faults=True, caller=True):
             op = ("R", rng.choice(around + [rng.randrange(-3, n + 5)]))
         elif r < 0.64:
             op = ("S", rng.choice(around + [rng.randrange(-n - 3, n + 4)]), rng.choice([0, 0, 1, 1, 2, 2, 3]))
-        elif r < 0.85:
+        elif r < 0.80:
             op = ("N", rng.choice([1, 2, 3, 5, max(1, n // 3), n + 1, 50]))
+        elif r < 0.87:
+            # a complete for loop: the iterator is consumed to the end (StopIteration reached)
+            op = ("I", loop_chunk(rng, n, [1, 2, 3, 5, max(1, n // 3), max(1, n), n + 1, 50]))
         elif r < 0.95 or not p_caller:
             op = ("A",)
         else:
             op = ("M", rng.randrange(len(CALLER_OPS)), rng.randrange(4))
-        if op[0] != "M" and rng.random() < p_fault:
+        if op[0] not in "MI" and rng.random() < p_fault:
             own = "k" if op[0] == "S" else "r"
             op = ("F", own if rng.random() < 0.85 else ("r" if own == "k" else "k"), op)
         ops.append(op)
+        if op[0] in "IA" and rng.random() < 0.7:
+            # the reader outlives an iteration / a read() that reached the end: a second pass (seek back, read again)
+            ops.append(("S", rng.choice([0, 0, n // 2, max(n - 1, 0), -1, -n]), rng.choice([0, 0, 1, 2])))
+            ops.append(rng.choice([("R", rng.choice([1, 2, -1, n])), ("N", rng.choice([1, 3, 50])), ("A",), ("I", loop_chunk(rng, n, [1, 4, 50]))]))
         if op[0] == "A" and rng.random() < p_caller:
             # what the caller does with the LasData it just got
             for _ in range(rng.choice([1, 1, 2])):
@@ -61,8 +85,8 @@ def gen_history(rng, n, faults=True, caller=True):
 def op_tok(op):
     if op[0] == "R":
         return f"R{op[1]}"
-    if op[0] == "N":
-        return f"N{op[1]}"
+    if op[0] in "NI":
+        return f"{op[0]}{op[1]}"
     if op[0] == "S":
         return f"S{op[1]}:{op[2]}"
     if op[0] == "F":
@@ -81,11 +105,33 @@ def fault_shows(op):
     return op[0] == "F" and op[1] == ("k" if op[2][0] == "S" else "r")
 
 
-def model_tok(op):
-    """the operation as the model sees it (Model/CursorFault.v)"""
+def model_toks(op, n):
+    """the operation as the model sees it (Model/CursorFault.v): a list of model operations. A complete for loop over
+    chunk_iterator(k) is next() until StopIteration: on a file of n points that is at most n // k + 1 calls; next() on an exhausted
+    reader changes nothing, so the loop is modelled by n // k + 2 CNext k of which the trailing ones must all be StopIteration
+    (Model/CursorIter.v proves that this is the for loop)."""
     if op[0] == "F":
-        return ("!" if fault_shows(op) else "") + op_tok(op[2])
-    return "M" if op[0] == "M" else op_tok(op)
+        return [("!" if fault_shows(op) else "") + op_tok(op[2])]
+    if op[0] == "I":
+        return [f"N{op[1]}"] * (n // op[1] + 2)
+    return ["M" if op[0] == "M" else op_tok(op)]
+
+
+def regroup(ops, n, model):
+    """model outputs (one per model operation) -> one per operation of the history"""
+    out, i = [], 0
+    for op in ops:
+        k = len(model_toks(op, n))
+        part, i = model[i:i + k], i + k
+        if op[0] != "I":
+            out.append(part[0] if part else ("e", "model-output-missing"))
+            continue
+        sl = [m for m in part if m[0] == "b"]
+        stops = part[len(sl):]
+        ok = (all(m[0] == "b" for m in part[:len(sl)]) and stops and all(m == ("e", "EStop") for m in stops)
+              and all(a[2] == b[1] for a, b in zip(sl, sl[1:])))
+        out.append(("B", sl[0][1] if sl else 0, sl[-1][2] if sl else 0, [m[2] - m[1] for m in sl]) if ok else ("e", "model-for-loop-not-ended"))
+    return out
 
 
 def parse_ops(toks):
@@ -99,7 +145,7 @@ def parse_ops(toks):
         elif t[0] == "S":
             p, w = t[1:].split(":")
             ops.append(("S", int(p), int(w)))
-        elif t[0] in "RN":
+        elif t[0] in "RNI":
             ops.append((t[0], int(t[1:])))
         else:
             ops.append(("A",))
@@ -167,45 +213,22 @@ def documented_extra(h):
 # ---------------------------------------------------------------------------------
 # implementation runner
 # ---------------------------------------------------------------------------------
-class NoReadinto:
-    """a seekable binary stream offering read / seek / tell only (no readinto)"""
-
-    def __init__(self, raw):
-        self._b = io.BytesIO(raw)
-
-    def read(self, n=-1):
-        return self._b.read(n)
-
-    def seek(self, pos, whence=0):
-        return self._b.seek(pos, whence)
-
-    def tell(self):
-        return self._b.tell()
-
-    def seekable(self):
-        return True
-
-    def readable(self):
-        return True
-
-    def close(self):
-        self._b.close()
-
-
 class InjectedFault(OSError):
     pass
 
 
 class Flaky:
-    """a seekable binary stream (read / seek / tell) that, when armed, raises ONCE: kind "r" on the next read / readinto that would
-    deliver point data (the stream stands inside [lo, hi)), kind "k" on the next absolute seek to a position inside [lo, hi);
-    nothing is consumed and the position does not move when it raises"""
+    """the CORE of a random-access binary source: read / seek / tell and nothing else (what a minimal range reader offers; laspy needs
+    exactly these three to open a file). Optional capabilities are added per class by `source_class`. When armed, raises ONCE: kind "r"
+    on the next read / readinto that would deliver point data (the stream stands inside [lo, hi)), kind "k" on the next absolute seek to a
+    position inside [lo, hi); nothing is consumed and the position does not move when it raises"""
 
-    def __init__(self, raw, lo, hi):
+    def __init__(self, raw, lo=0, hi=0):
         self._b = io.BytesIO(raw)
         self._lo, self._hi = lo, hi
         self.armed = None
         self.fired = False
+        self.closed_calls = 0
 
     def arm(self, kind):
         self.armed, self.fired = kind, False
@@ -230,20 +253,62 @@ class Flaky:
     def tell(self):
         return self._b.tell()
 
-    def seekable(self):
-        return True
 
-    def readable(self):
-        return True
-
-    def close(self):
-        self._b.close()
+def _cap_readinto(self, b):
+    self._fault("r", self._b.tell())
+    return self._b.readinto(b)
 
 
-class FlakyReadinto(Flaky):
-    def readinto(self, b):
-        self._fault("r", self._b.tell())
-        return self._b.readinto(b)
+def _cap_close(self):
+    self.closed_calls += 1
+    self._b.close()
+
+
+# the capabilities a source may or may not have besides read / seek / tell. `seekable` ABSENT does not mean "cannot seek":
+# mmap.mmap (Python <= 3.12), range readers over HTTP / object stores, zipfile members of older versions have seek() and no seekable().
+CAPS = {"readinto": _cap_readinto, "seekable": lambda self: True, "readable": lambda self: True, "close": _cap_close,
+        "flush": lambda self: None, "fileno": lambda self: (_ for _ in ()).throw(io.UnsupportedOperation("fileno")),
+        "closed": property(lambda self: self._b.closed)}
+CAP_LETTERS = {"readinto": "i", "seekable": "s", "readable": "r", "close": "c", "flush": "f", "fileno": "n", "closed": "d"}
+_CLASSES = {}
+
+
+def source_class(caps):
+    caps = frozenset(caps)
+    if caps not in _CLASSES:
+        _CLASSES[caps] = type("Source_" + ("_".join(sorted(caps)) or "bare"), (Flaky,), {c: CAPS[c] for c in caps})
+    return _CLASSES[caps]
+
+
+def caps_of(source):
+    """'cap:<letters>' -> set of capability names"""
+    letters = source.split(":", 1)[1]
+    return {c for c, l in CAP_LETTERS.items() if l in letters}
+
+
+def cap_source_name(caps):
+    return "cap:" + "".join(sorted(CAP_LETTERS[c] for c in caps))
+
+
+# every subset of the three capabilities laspy asks a source about (readinto / seekable / readable), with a close(); a few more
+# with the other members a file object may or may not have
+CAP_SOURCES = [cap_source_name({"close"} | {c for c, on in zip(("readinto", "seekable", "readable"), bits) if on})
+               for bits in [(a, b, c) for a in (0, 1) for b in (0, 1) for c in (0, 1)]] + \
+              [cap_source_name({"close", "flush", "fileno", "closed"}), cap_source_name({"close", "readinto", "closed", "flush"}),
+               cap_source_name({"close", "readinto", "seekable", "readable", "flush", "fileno", "closed"})]
+# sources without close() can only be used with closefd=False
+BARE_SOURCES = [cap_source_name(set()), cap_source_name({"readinto"}), cap_source_name({"seekable"})]
+PLAIN_SOURCES = ["bytesio", "bytesio", "ctor", "noreadinto", "file", "bytes", "fileobj", "rawfile", "mmap", "mmap"]
+SOURCES = PLAIN_SOURCES + CAP_SOURCES
+
+
+def pick_mode_source(rng):
+    """(source, closefd): half of the cases a library object, half a capability class"""
+    if rng.random() < 0.5:
+        return rng.choice(PLAIN_SOURCES), rng.random() < 0.8
+    if rng.random() < 0.2:
+        return rng.choice(BARE_SOURCES), False
+    return rng.choice(CAP_SOURCES), rng.random() < 0.7
 
 
 # ---------------------------------------------------------------------------------
@@ -382,25 +447,48 @@ CALLER_OPS = [_c_add_dim, _c_add_dim, _c_add_dims, _c_remove_dims, _c_remove_dim
               _c_wrap_chunk, _c_wrap_chunk_remove, _c_convert]
 
 
-def open_reader(raw, source, read_evlrs, tmp, flaky=None):
+def open_reader(raw, source, read_evlrs, tmp, flaky=None, closefd=True, keep=None):
+    """`keep`: list that receives the underlying source object (when the caller owns one)"""
     import laspy
+    import mmap
+    kw = {"read_evlrs": read_evlrs, "closefd": closefd}
+    keep = keep if keep is not None else []
     if flaky is not None:
-        # a history with faults: the same kinds of stream, wrapped (a path is opened by the caller)
-        return laspy.LasReader(flaky, read_evlrs=read_evlrs) if source == "ctor" else laspy.open(flaky, read_evlrs=read_evlrs)
+        # a history with faults / a capability class: the stream object is made by the caller of this function
+        keep.append(flaky)
+        return laspy.LasReader(flaky, **kw) if source == "ctor" else laspy.open(flaky, **kw)
     if source == "ctor":
-        return laspy.LasReader(io.BytesIO(raw), read_evlrs=read_evlrs)
-    if source == "noreadinto":
-        return laspy.open(NoReadinto(raw), read_evlrs=read_evlrs)
-    if source == "file":
+        keep.append(io.BytesIO(raw))
+        return laspy.LasReader(keep[-1], **kw)
+    if source == "bytes":
+        return laspy.open(raw, **kw)
+    if source == "mmap":
+        mm = mmap.mmap(-1, max(len(raw), 1))
+        mm.write(raw)
+        mm.seek(0)
+        keep.append(mm)
+        return laspy.open(mm, **kw)
+    if source in ("file", "fileobj", "rawfile"):
         fd, path = tempfile.mkstemp(suffix=".las", dir="/var/tmp")
         with os.fdopen(fd, "wb") as f:
             f.write(raw)
         tmp.append(path)
-        return laspy.open(path, read_evlrs=read_evlrs)
-    return laspy.open(io.BytesIO(raw), read_evlrs=read_evlrs)
+        if source == "file":
+            if not closefd:
+                # closefd=False with a path is refused by open(); a file descriptor is what the parameter is for
+                keep.append(open(path, "rb"))
+                return laspy.open(keep[-1], **kw)
+            return laspy.open(path, **kw)
+        keep.append(open(path, "rb") if source == "fileobj" else open(path, "rb", buffering=0))
+        return laspy.open(keep[-1], **kw)
+    keep.append(io.BytesIO(raw))
+    return laspy.open(keep[-1], **kw)
 
 
-def run_impl(raw, ops, source="bytesio", read_evlrs=True, npints=False):
+STD_CAPS = {"noreadinto": {"seekable", "readable", "close"}, None: {"readinto", "seekable", "readable", "close"}}
+
+
+def run_impl(raw, ops, source="bytesio", read_evlrs=True, npints=False, closefd=True):
     """returns (outputs, facts): outputs = ('s', bytes, number of records) | ('k', idx) | ('e', kind); facts = what the reader
     says about the file. The records returned by EVERY call are kept alive and looked at again after the whole history (a later
     read must not overwrite an earlier result)."""
@@ -408,12 +496,15 @@ def run_impl(raw, ops, source="bytesio", read_evlrs=True, npints=False):
     wrap = (lambda v: np.int64(v)) if npints else (lambda v: v)
     outs, iters, kept, tmp, handed = [], {}, [], [], []
     flaky = None
-    if any(o[0] == "F" for o in ops):
+    multi = []
+    if source.startswith("cap:") or source == "noreadinto" or any(o[0] == "F" for o in ops):
+        # a capability class (also the vehicle of the faults: a history with faults on a library object runs on the full class)
         _, off, L, n = layout_of(raw)
-        flaky = (Flaky if source == "noreadinto" else FlakyReadinto)(raw, off, off + n * L)
+        caps = caps_of(source) if source.startswith("cap:") else STD_CAPS.get(source, STD_CAPS[None])
+        flaky = source_class(caps)(raw, off, off + n * L)
     logging.disable(logging.CRITICAL)
     try:
-        with open_reader(raw, source, read_evlrs, tmp, flaky) as rd:
+        with open_reader(raw, source, read_evlrs, tmp, flaky, closefd) as rd:
             facts = {"stride": int(rd.header.point_format.size), "offset": int(rd.header.offset_to_point_data), "count": int(rd.header.point_count)}
             for op in ops:
                 if op[0] == "M":
@@ -442,6 +533,13 @@ def run_impl(raw, ops, source="bytesio", read_evlrs=True, npints=False):
                         r = next(it)
                         kept.append((len(outs), r))
                         outs.append(("s", bytes(r.memoryview()), len(r)))
+                    elif op[0] == "I":
+                        # a complete `for` loop over a fresh iterator: consumed to the end (StopIteration reached)
+                        chunks = []
+                        for r in rd.chunk_iterator(wrap(op[1])):
+                            chunks.append(r)
+                        multi.append((len(outs), chunks))
+                        outs.append(("s", b"".join(bytes(r.memoryview()) for r in chunks), sum(len(r) for r in chunks), [len(r) for r in chunks]))
                     elif op[0] == "S":
                         outs.append(("k", int(rd.seek(wrap(op[1]), op[2]))))
                     else:
@@ -460,6 +558,10 @@ def run_impl(raw, ops, source="bytesio", read_evlrs=True, npints=False):
                 now = bytes(r.memoryview())
                 if now != outs[i][1]:
                     outs[i] = ("s", now + b"<changed-after-later-reads>", outs[i][2])
+            for i, chunks in multi:
+                now = b"".join(bytes(r.memoryview()) for r in chunks)
+                if now != outs[i][1]:
+                    outs[i] = ("s", now + b"<changed-after-later-reads>", outs[i][2], outs[i][3])
     finally:
         logging.disable(logging.NOTSET)
         for p in tmp:
@@ -490,6 +592,12 @@ def spec_py(n, ops):
                 # the source raised before consuming anything: the call failed, the cursor is where it was
                 outs.append(("e", "fault"))
                 continue
+        if op[0] == "I":
+            # the for loop hands out the rest of the file in chunks of k records (the last one shorter), and ends: cursor at the end
+            m = max(n - c, 0)
+            outs.append(("s", c, c + m, [op[1]] * (m // op[1]) + ([m % op[1]] if m % op[1] else [])))
+            c += m
+            continue
         if op[0] in ("R", "N", "A"):
             k = -1 if op[0] == "A" else op[1]
             m = (n - c) if k < 0 else min(k, n - c)
@@ -541,6 +649,28 @@ def base_file(rng, version, fmt, n, dims):
     return lasio.write_las(h, pts, evl), h, len(evl)
 
 
+BIG_N = 3400000
+
+
+def big_file(rng):
+    """a LAS 1.2 / format 0 file of 3.4 million records (68 MB of point data) whose bytes follow a pattern without short period:
+    the header is laspy's, the records are written here"""
+    import numpy as np
+    import laspy
+    h = laspy.LasHeader(version="1.2", point_format=0)
+    raw = bytearray(lasio.write_las(h, laspy.PackedPointRecord.zeros(0, h.point_format), []))
+    struct.pack_into("<I", raw, 107, BIG_N)
+    x = np.arange(BIG_N * 20 // 4, dtype=np.uint32)
+    body = ((x * np.uint32(2654435761)) ^ (x >> np.uint32(7)) ^ np.uint32(rng.getrandbits(32))).tobytes()
+    return bytes(raw) + body
+
+
+def big_histories(rng, n):
+    """short histories in which a single call transfers (nearly) everything"""
+    return [[("A",)], [("R", n)], [("R", -1), ("S", 0, 0), ("I", n + 1)], [("R", 10), ("A",), ("S", 1, 0), ("N", n)],
+            [("S", 5, 0), ("R", n - 6), ("R", 5)], [("I", n - 1), ("S", -1, 2), ("A",)]]
+
+
 def make_files(ctx):
     """list of (raw, label, histories per file weight). Every label names how the record length relates to the format."""
     files = []
@@ -560,6 +690,9 @@ def make_files(ctx):
     for version, fmt, n in [("1.2", 0, 3300), ("1.4", 6, 2200)] + ([("1.2", 1, 70000), ("1.4", 7, 40000)] if ctx.thorough() else []):
         raw, h, ne = base_file(rng, version, fmt, n, 0)
         files.append((raw, f"{version}/fmt{fmt}/n{n}/evlrs{ne}/standard-size", 0.25))
+    # more than 64 MiB of point data, so that ONE read_points / read() / chunk transfers more than 64 MiB (sources and platforms cut
+    # large single transfers; a reader that splits them must deliver every block)
+    files.append((big_file(rng), "1.2/fmt0/n3400000/evlrs0/standard-size/over-64MiB", 0))
     # record length larger than the format's standard size, in every version / format:
     #   exact   the ExtraBytes VLR documents exactly all extra bytes (what laspy writes)
     #   fewer   the VLR documents a dimension, the records carry more bytes after it
@@ -602,8 +735,17 @@ def histories(ctx):
     cases = []
     for raw, label, weight in files:
         n = layout_of(raw)[3]
+        if "over-64MiB" in label:
+            hs = big_histories(ctx.rng, n)
+            for j, ops in enumerate(hs if ctx.thorough() else ctx.rng.sample(hs, 2)):
+                # both transfer paths of the point source: readinto(buffer) and read(n)
+                src = ctx.rng.choice(["bytesio", "file", "fileobj", "rawfile", "cap:cirs", "cap:ci"] if j % 2 == 0 else ["mmap", "noreadinto", "cap:c", "cap:crs"])
+                closefd = ctx.rng.random() < 0.8
+                cases.append((raw, label, {"source": src, "closefd": closefd, "read_evlrs": True, "npints": False}, ops))
+            continue
         for k in range(max(3, int(per * weight))):
-            mode = {"source": ctx.rng.choice(SOURCES),
+            src, closefd = pick_mode_source(ctx.rng)
+            mode = {"source": src, "closefd": closefd,
                     # EVLRs loaded at opening or deferred to read(): the cursor behaves the same
                     "read_evlrs": bool(k % 3),
                     # numpy integers as counts / positions
@@ -613,7 +755,8 @@ def histories(ctx):
 
 
 def mode_tok(mode):
-    return f"{mode['source']}|{'evlrs-at-open' if mode['read_evlrs'] else 'evlrs-deferred'}{'|numpy-ints' if mode['npints'] else ''}"
+    return (f"{mode['source']}|{'evlrs-at-open' if mode['read_evlrs'] else 'evlrs-deferred'}{'|numpy-ints' if mode['npints'] else ''}"
+            f"{'' if mode.get('closefd', True) else '|closefd=False'}")
 
 
 # ---------------------------------------------------------------------------------
@@ -626,6 +769,8 @@ def compare(expected, got, raw):
     for i, (e, g) in enumerate(zip(expected, got)):
         if e[0] == "s":
             if g[0] != "s" or g[1] != raw[off + e[1] * L:off + e[2] * L] or g[2] != e[2] - e[1]:
+                return i
+            if len(e) > 3 and list(g[3]) != e[3]:
                 return i
         elif e[0] == "k":
             if g != ("k", e[1]):
@@ -655,9 +800,13 @@ def parse_model(line):
 
 
 def compare_bytes(model, got, raw):
+    L = layout_of(raw)[2]
     for i, (m, g) in enumerate(zip(model, got)):
         if m[0] == "b":
             if g[0] != "s" or g[1] != raw[m[1]:m[2]]:
+                return i
+        elif m[0] == "B":
+            if g[0] != "s" or g[1] != raw[m[1]:m[2]] or len(g) < 4 or [k * L for k in g[3]] != m[3]:
                 return i
         elif m[0] == "k":
             if g != ("k", m[1]):
@@ -677,17 +826,37 @@ def got_short(g, L):
 
 _CASES = None
 
+KNOWN = "empty-laz-evlrs-nonseekable"
+
+
+def says_not_seekable(mode, ops):
+    """the source has seek() but laspy takes it for a non-seekable one: it has no seekable() method"""
+    import mmap
+    src = mode["source"]
+    if src.startswith("cap:"):
+        return "seekable" not in caps_of(src)
+    return src == "mmap" and not hasattr(mmap.mmap, "seekable") and not any(o[0] == "F" for o in ops)
+
+
+def known_finding(label, mode, ops, bad, got):
+    """the OPEN finding `empty-laz-evlrs-nonseekable` of known_findings.json (filed under C14 / C17) seen from this property: read() of a
+    0-point file flagged compressed that has EVLRs, from a source laspy takes for non-seekable, raises LaspyException instead of
+    returning an empty record. Here the source CAN seek and merely lacks the seekable() method (mmap.mmap, a range reader)."""
+    op = ops[bad][2] if ops[bad][0] == "F" else ops[bad]
+    return ("empty-file-flagged-compressed" in label and op[0] == "A" and got[bad] == ("e", "ELaspy") and says_not_seekable(mode, ops))
+
 
 def correspond(ctx):
     global _CASES
     ctx.extra["rule"] = ("random histories (1..24 ops) over {read_points(n), seek(pos, whence), next(chunk_iterator(k)) on iterators kept "
-                         "alive across ops, read(), any of these while the source raises once on its first read/readinto/seek of point data "
+                         "alive across ops, a complete for loop over chunk_iterator(k) (consumed to the end) followed by seeks and second passes, read(), any of these while the source raises once on its first read/readinto/seek of point data "
                          "(caught, history goes on), caller operations on the LasData / header / point format / record handed out by earlier calls "
                          "(add/remove extra dims, points replaced, header edits, write, convert)} with n/pos drawn around 0, +-1, count, count+-1, huge, as Python or numpy integers; files of every "
                          "(version, format) x counts {0,1,23,..} with/without trailing EVLRs, written by laspy or not: record length = standard size, "
                          "+ extra bytes documented exactly / partly / not at all by an ExtraBytes VLR, a VLR although the records carry none, bytes "
-                         "after the last record, a gap before the EVLRs; opened through laspy.open(BytesIO | stream without readinto | path) and "
-                         "LasReader(). The expected records are slices of the point array cut from the raw bytes with the header's own offset / "
+                         "after the last record, a gap before the EVLRs, one file with > 64 MiB of point data read in single calls; opened through laspy.open(BytesIO | bytes | path | file object buffered / unbuffered | mmap.mmap | "
+                         "a class offering read/seek/tell plus every subset of {readinto, seekable(), readable()} and some of {close, flush, fileno, closed}), "
+                         "closefd True / False, and LasReader(). The expected records are slices of the point array cut from the raw bytes with the header's own offset / "
                          "record length / count. non-trivial = the history has a seek, a fault or a caller operation; distinct by (file label, mode, history)")
     _CASES = histories(ctx)
     # what the header model says about each file: count, record length (= the stride a faithful reader uses), offset
@@ -710,11 +879,11 @@ def correspond(ctx):
     cmds = []
     for raw, label, mode, ops in _CASES:
         off, L, n = view.get(id(raw), layout_of(raw)[1:])
-        cmds.append(f"bfrun {off} {L} {n} " + " ".join(model_tok(o) for o in ops))
+        cmds.append(f"bfrun {off} {L} {n} " + " ".join(t for o in ops for t in model_toks(o, n)))
     outs = common.run_model(cmds, name=DRIVER)
     for (raw, label, mode, ops), line in zip(_CASES, outs):
-        model = parse_model(line)
         off, L, n = view.get(id(raw), layout_of(raw)[1:])
+        model = regroup(ops, n, parse_model(line))
         try:
             impl, facts = run_impl(raw, ops, **mode)
         except Exception as ex:
@@ -726,7 +895,12 @@ def correspond(ctx):
         for o in ops:
             ctx.count("op:" + (("fault-during-" + o[2][0] + ("" if fault_shows(o) else "(kind the op never meets)")) if o[0] == "F" else
                                ("caller:" + CALLER_OPS[o[1] % len(CALLER_OPS)].__name__[3:]) if o[0] == "M" else o[0]))
-        ctx.count("source:" + mode["source"])
+        ctx.count("source:" + mode["source"] + ("" if not mode["source"].startswith("cap:") else
+                                                  " = read/seek/tell+" + ",".join(sorted(caps_of(mode["source"])))))
+        if not mode.get("closefd", True):
+            ctx.count("closefd=False")
+        if any(a[0] in "IA" and b[0] == "S" for a, b in zip(ops, ops[1:])):
+            ctx.count("history:seek-after-iteration-or-read()-to-the-end")
         ctx.count("file:" + (label.split("/extra-bytes-")[1].split("/")[0] if "extra-bytes-" in label else label.split("/")[-1].split("-")[0] + "…"))
         for m in model:
             ctx.count("out:" + (m[1] if m[0] == "e" else m[0]))
@@ -737,7 +911,7 @@ def correspond(ctx):
                         "model": {"stride": L, "offset": off, "count": n}, "impl": facts})
         bad = compare_bytes(model, impl, raw)
         if bad is not None:
-            dis.append({"kind": f"history op {op_letter(ops[bad])}", "input": {"file": label, "mode": mode_tok(mode), "ops": [op_tok(o) for o in ops], "at": bad},
+            dis.append({"kind": (KNOWN + ": " if known_finding(label, mode, ops, bad, impl) else "") + f"history op {op_letter(ops[bad])}", "input": {"file": label, "mode": mode_tok(mode), "ops": [op_tok(o) for o in ops], "at": bad},
                         "model": model[bad], "impl": got_short(impl[bad], L)})
     return dis
 
@@ -777,6 +951,23 @@ def file_class(label):
     return label.split("/extra-bytes-")[1].split("/")[0] if "extra-bytes-" in label else label.split("/")[-1]
 
 
+def file_hex(raw, label):
+    """the file for the replay; the 68 MB file is rebuilt from its recipe (header + pattern) instead of being dumped"""
+    if "over-64MiB" in label:
+        return "big:" + raw[:layout_of(raw)[1]].hex() + ":" + str(struct.unpack_from("<I", raw, layout_of(raw)[1])[0])
+    return raw.hex()
+
+
+def file_from_hex(hx):
+    if hx.startswith("big:"):
+        import numpy as np
+        _, head, first = hx.split(":")
+        x = np.arange(BIG_N * 20 // 4, dtype=np.uint32)
+        seed = np.uint32(int(first)) ^ np.uint32(0)       # the first word of the body is (0 * c) ^ (0 >> 7) ^ seed = seed
+        return bytes.fromhex(head) + ((x * np.uint32(2654435761)) ^ (x >> np.uint32(7)) ^ seed).tobytes()
+    return bytes.fromhex(hx)
+
+
 def search(ctx, seeds):
     cases = _CASES if _CASES is not None else histories(ctx)
     failing = []
@@ -795,18 +986,24 @@ def search(ctx, seeds):
                     why = "?"
                 except Exception as ex:
                     why = repr(ex)
-                failing.append({"kind": kind, "input": {"file": label, "mode": mode, "points": n, "record_length": L, "file_hex": raw.hex()}, "observed": why})
+                failing.append({"kind": kind, "input": {"file": label, "mode": mode, "points": n, "record_length": L, "file_hex": file_hex(raw, label)}, "observed": why})
             continue
+        if known_finding(label, mode, ops, bad, got):
+            if KNOWN in seen:
+                continue
+            seen.add(KNOWN)
         small = shrink(raw, ops, mode)
         b2, got2 = fails(raw, small, mode)
         kind = f"cursor: {' '.join(op_letter(o) for o in small)}" + (f" [{file_class(label)}]" if "standard-size" not in label else "")
+        if known_finding(label, mode, small, b2, got2):
+            kind = f"{KNOWN}: read() of an empty file flagged compressed with EVLRs from a source that has seek() and no seekable() method"
         if kind in seen:
             continue
         seen.add(kind)
         exp = spec_py(n, small)[b2]
         failing.append({"kind": kind, "input": {"file": label, "mode": mode, "points": n, "record_length": L, "offset_to_point_data": off,
                                                 "ops": [op_tok(o) for o in small],
-                                                "ops_legend": {op_tok(o): legend(o) for o in small if o[0] in "FM"}, "file_hex": raw.hex()},
+                                                "ops_legend": {op_tok(o): legend(o) for o in small if o[0] in "FM"}, "file_hex": file_hex(raw, label)},
                         "observed": f"op #{b2} {op_tok(small[b2])}: expected {exp}" +
                                     (f" = bytes [{off + exp[1] * L}, {off + exp[2] * L}) of the file" if exp[0] == "s" else "") + f", got {got_short(got2[b2], L)}"})
         if len(failing) >= 5:
@@ -819,7 +1016,7 @@ def replay(ctx, data):
     if not inp or "file_hex" not in inp:
         print("nothing to replay")
         return 0
-    raw = bytes.fromhex(inp["file_hex"])
+    raw = file_from_hex(inp["file_hex"])
     ops = parse_ops(inp.get("ops", []))
     mode = inp.get("mode") or {"source": "bytesio", "read_evlrs": True, "npints": False}
     bad, _ = fails(raw, ops, mode)
